@@ -7,6 +7,7 @@ called, and accept/reject is compared with the oracle; after an accepted validat
 single-site service is compared with the site of its connected nodes.  The connect-time guard-rail is exercised
 through the constructor and through a later connect_interface().
 """
+import os
 import contextlib
 import random
 
@@ -66,7 +67,7 @@ for _nt, _C in R.PIN_NODE.items():
         _NODE_REQ += [f'nodeclause:{_nt}:node-required:{_p}:accept', f'nodeclause:{_nt}:node-required:{_p}:reject']
     for _p in _C['forbidden_properties']:
         _NODE_REQ += [f'nodeclause:{_nt}:node-forbidden:{_p}:accept', f'nodeclause:{_nt}:node-forbidden:{_p}:reject']
-REQUIRED = (['pin-diff-evaluated', 'pin-cells-compared', 'validate-calls', 'agree:accept', 'agree:reject', 'site-recorded-checked',
+REQUIRED = (['pin-diff-evaluated', 'pin-cells-compared', 'validate-calls', 'agree-after-reload:accept', 'agree-after-reload:reject', 'agree:accept', 'agree:reject', 'site-recorded-checked',
              'guardrail:ctor:refused-as-pinned', 'guardrail:ctor:allowed-as-pinned', 'guardrail:connect:allowed-as-pinned',
              'guardrail:connect:pinned-refusal-attempted',
              'cases:S', 'cases:N', 'cases:G', 'cases:P', 'cases:U', 'cases:V', 'cases:R', 'cases:D', 'variant:num-instances:reject',
@@ -661,7 +662,45 @@ def judge(ctx, desc, topo, handles):
                 key = 'C10/site-not-recorded-after-validation' if not got else 'C10/site-recorded-differs-from-connected-nodes'
                 ctx.violation(key + suffix, 'after a successful validation a single-site service carries the site of its connected nodes',
                               dict(wit, service=name, expected_site=site, observed_site=got))
+    # ---- the same slice after serialize + load (what an orchestrator validates) gets the same verdict
+    if exp == obs and obs in ('accept', 'reject') and (RELOAD_ALWAYS[0] or ctx.rng.random() < 0.34):
+        reload_and_validate(ctx, desc, topo, exp, wit, suffix)
     return obs
+
+
+RELOAD_ALWAYS = [False]
+
+
+def reload_and_validate(ctx, desc, topo, exp, wit, suffix):
+    from fim.user.model_element import TopologyException
+    try:
+        text = topo.serialize()
+        t2 = type(topo)(importer=topo.graph_model.importer)
+        t2.load(graph_string=text, new_graph_id=f'C10-reload-{os.getpid()}')
+    except Exception as e:
+        ctx.count('reload:not-loadable')
+        return
+    ctx.count('validate-calls:after-serialize-and-load')
+    try:
+        t2.validate()
+        obs2, msg2 = 'accept', None
+    except TopologyException as e:
+        obs2, msg2 = 'reject', str(e)
+    except Exception as e:
+        obs2, msg2 = 'crash', f'{type(e).__name__}: {e}'
+    finally:
+        try:
+            t2.graph_model.delete_graph()
+        except Exception:
+            pass
+    if obs2 == exp:
+        ctx.count('agree-after-reload:' + exp)
+    elif obs2 == 'crash' and exp == 'reject':
+        ctx.count('reload:invalid-slice-rejected-by-other-exception')
+    else:
+        ctx.violation(f'C10/verdict-after-serialize-and-load-differs:{exp}->{obs2}' + suffix,
+                      'validate() succeeds iff every constraint is met - also for the same slice read back from its serialized form',
+                      dict(wit, verdict_after_reload=obs2, message_after_reload=(msg2 or '')[:300]))
 
 
 def new_case(imp, desc, tag):
@@ -900,6 +939,7 @@ def replay(ctx, case):
     elif 'guardrail-case' in w:
         run_guardrail(ctx, imp, w['guardrail-case'])
     else:
+        RELOAD_ALWAYS[0] = True
         run_case(ctx, imp, w['description'], 'replay')
     imp.delete_all_graphs()
 
